@@ -5,4 +5,5 @@ MCShapeSet == AllShapes(MaxDims, Lens)
 \* unequal lengths (so that row-major and column-major positions differ) with 3 and 4 axes
 MCCatalogue == {<<2, 3, 4>>, <<4, 3, 2>>, <<3, 1, 5>>, <<2, 3, 2, 3>>, <<5, 2, 1, 3>>, <<1, 1, 4, 2>>, <<2, 2, 2, 2, 2>>}
 MCAllCtors == {"new", "from_iter", "from_element", "from_zeros", "new_short", "new_long", "from_iter_short"}
+MCTwoCtors == {"new", "from_zeros"}
 =============================================================================
